@@ -191,16 +191,18 @@ structure LzwSt where
   ext : List Bytes
   prev : Option Bytes
 
-def lzwInit : LzwSt := { nbits := 9, init := false, ext := [], prev := none }
+-- round 6: the constants below (`LZW_*`) are translated from lzw.py (`Gen.Filters`); `Lemmas/FiltersLit.lean`
+-- states the same functions with the literals written out
+def lzwInit : LzwSt := { nbits := LZW_INIT_NBITS, init := false, ext := [], prev := none }
 
-def tableLen (st : LzwSt) : Nat := if st.init then 258 + st.ext.length else 0
+def tableLen (st : LzwSt) : Nat := if st.init then LZW_FIRST_FREE + st.ext.length else 0
 
 /-- `self.table[code]`; `none` = IndexError. -/
 def tableGet (st : LzwSt) (code : Nat) : Option Bytes :=
   if !st.init then none
-  else if code < 256 then some [UInt8.ofNat code]
-  else if code < 258 then none
-  else st.ext[code - 258]?
+  else if code < LZW_LITERALS then some [UInt8.ofNat code]
+  else if code < LZW_FIRST_FREE then none
+  else st.ext[code - LZW_FIRST_FREE]?
 
 inductive FeedRes
   | ok (st : LzwSt) (x : Bytes)
@@ -211,11 +213,11 @@ inductive FeedRes
 
 def feedGrow (st : LzwSt) (entry x : Bytes) : FeedRes :=
   let ext' := st.ext ++ [entry]
-  .ok { st with ext := ext', nbits := nbitsAfter st.nbits (258 + ext'.length), prev := some x } x
+  .ok { st with ext := ext', nbits := nbitsAfter st.nbits (LZW_FIRST_FREE + ext'.length), prev := some x } x
 
 def feed (st : LzwSt) (code : Nat) : FeedRes :=
-  if code == 256 then .ok { nbits := 9, init := true, ext := [], prev := some [] } []
-  else if code == 257 then .ok st []
+  if code == LZW_CLEAR then .ok { nbits := LZW_NBITS_RESET, init := true, ext := [], prev := some [] } []
+  else if code == LZW_EOD then .ok st []
   else
     match st.prev with
     | none | some [] =>                                     -- `elif not self.prevbuf`
@@ -272,7 +274,7 @@ def lzwRunB : Nat → LzwSt → Bytes → Nat → Nat → Except Err Bytes
 
 /-- `lzwdecode`: `buff = 0`, `bpos = 8` initially. -/
 def lzwdecode (data : Bytes) : Except Err Bytes :=
-  lzwRunB (8 * data.length + 1) lzwInit data 0 8
+  lzwRunB (8 * data.length + 1) lzwInit data LZW_INIT_BUFF LZW_INIT_BPOS
 
 /-! ## Predictors -/
 
